@@ -244,14 +244,20 @@ theorem Ext.unfoldFunc {T T' : Types} (h : Ext T T') (n f : Nat) (t : Tree)
       rw [unfoldNamed_mono (h.unfoldVT n) _ _ h1, unfoldOpt_mono (h.unfoldVT n) _ _ h2]; exact hf
     · cases hf
 
-/-! ### leaf kinds: functions and values (their trees depend on the value-level arenas only) -/
+/-! ### leaf kinds: functions, values, and `type` exports of function / value types (their trees
+depend on the value-level arenas only) -/
 
 def LeafK : ItemKind → Prop
   | .func _ => True
   | .value _ => True
+  | .type (.func _) => True
+  | .type (.value _) => True
   | _ => False
 
-instance : DecidablePred LeafK := fun k => by cases k <;> simp only [LeafK] <;> infer_instance
+instance : DecidablePred LeafK := fun k => by
+  cases k with
+  | type t => cases t <;> simp only [LeafK] <;> infer_instance
+  | _ => simp only [LeafK] <;> infer_instance
 
 theorem Ext.unfoldLeaf {T T' : Types} (h : Ext T T') {k : ItemKind} (hk : LeafK k) (n : Nat) (t : Tree)
     (hu : T.unfoldKind n k = some t) : T'.unfoldKind n k = some t := by
@@ -264,7 +270,17 @@ theorem Ext.unfoldLeaf {T T' : Types} (h : Ext T T') {k : ItemKind} (hk : LeafK 
       simp only [Types.unfoldKind] at hu ⊢
       obtain ⟨x, hx, rfl⟩ := Option.map_eq_some_iff.1 hu
       rw [h.unfoldVT n v x hx]; rfl
-    | type _ => cases hk
+    | type ty =>
+      cases ty with
+      | func f =>
+        simp only [Types.unfoldKind] at hu ⊢
+        obtain ⟨x, hx, rfl⟩ := Option.map_eq_some_iff.1 hu
+        rw [h.unfoldFunc n f x hx]; rfl
+      | value v =>
+        simp only [Types.unfoldKind] at hu ⊢
+        obtain ⟨x, hx, rfl⟩ := Option.map_eq_some_iff.1 hu
+        rw [h.unfoldVT n v x hx]; rfl
+      | _ => cases hk
     | «instance» _ => cases hk
     | component _ => cases hk
     | module _ => cases hk
